@@ -605,7 +605,10 @@ func (e stakingCustomPrecompiledContractRoRewardOf) Execute(_ corevm.ContractRef
 		return nil, err
 	}
 
-	resReward, err := distkeeper.NewQuerier(dk).DelegationRewards(ctx, &disttypes.QueryDelegationRewardsRequest{
+	// the querier ends the current reward period of the validator, which writes to the distribution store,
+	// so run it on a branch of the state which is discarded, like a gRPC query does
+	queryCtx, _ := ctx.CacheContext()
+	resReward, err := distkeeper.NewQuerier(dk).DelegationRewards(queryCtx, &disttypes.QueryDelegationRewardsRequest{
 		DelegatorAddress: sdk.AccAddress(delegatorAddr.Bytes()).String(),
 		ValidatorAddress: valAddrStr,
 	})
@@ -663,7 +666,10 @@ func (e stakingCustomPrecompiledContractRoRewardsOf) Execute(_ corevm.ContractRe
 }
 
 func (e stakingCustomPrecompiledContractRoRewardsOf) getTotalRewards(ctx sdk.Context, addr common.Address, bondDenom string) (sdkmath.Int, error) {
-	resRewards, err := distkeeper.NewQuerier(e.contract.keeper.distKeeper).DelegationTotalRewards(ctx, &disttypes.QueryDelegationTotalRewardsRequest{
+	// the querier ends the current reward period of each validator, which writes to the distribution store,
+	// so run it on a branch of the state which is discarded, like a gRPC query does
+	queryCtx, _ := ctx.CacheContext()
+	resRewards, err := distkeeper.NewQuerier(e.contract.keeper.distKeeper).DelegationTotalRewards(queryCtx, &disttypes.QueryDelegationTotalRewardsRequest{
 		DelegatorAddress: sdk.AccAddress(addr.Bytes()).String(),
 	})
 	if err != nil {
